@@ -97,7 +97,8 @@ def step (x : S) (w : List String) : Option (S × String × List String) :=
   | ["ret", c, v] => do
     let c ← c.toNat?; let v ← v.toNat?
     some ({ x with rets := (c, v) :: x.rets }, "ok", [])
-  | ["final", base, len, first, _produced] => do
+  | ["final", base, len, first, _produced, reclaimed] => do
+    if reclaimed != "reclaimed=1" then rej x "a reclaimable prefix was still there long after the workload went quiet" else
     let base ← kv base "base"; let len ← kv len "len"; let first ← kv first "first"
     -- every value returned to a caller is a read of the model (same consumer, same value, same multiplicity)
     let reads := s.reads.map fun r => (r.1, r.2.2)
@@ -105,7 +106,7 @@ def step (x : S) (w : List String) : Option (S × String × List String) :=
     if !okRets then rej x "a caller received a value that no Get event of the model explains" else
     if (s.base : Int) != base || (s.buf.length : Int) != len then rej x s!"final state: model base={s.base} len={s.buf.length}" else
     if first != (match s.buf.head? with | some v => (v : Int) | none => -1) then rej x "final buffer head differs" else
-    some (x, "ok", [])
+    some (x, "ok", if x.shifted then ["quiet_reclaim"] else [])
   | _ => none
 
 def fam : Fam := { init := ({} : S), step := step }
